@@ -42,6 +42,10 @@ def _nonempty_ext(t: Term, ne: Set[Term]) -> Optional[bool]:
     if r is not None:
         return r
     tag = t[0]
+    if tag in ("list", "tuple") and t[1] and not all(x[0] == "star" for x in t[1]):
+        return True
+    if tag == "call" and t[1] == "range" and len(t[2]) == 1 and t[2][0][0] == "call" and t[2][0][1] == "len" and len(t[2][0][2]) == 1:
+        return _nonempty_ext(t[2][0][2][0], ne)          # range(len(xs))
     if tag == "call" and t[1] in ("numpy.cumsum", "numpy.add", "numpy.array", "numpy.asarray") and t[2]:
         return _nonempty_ext(t[2][0], ne)
     if tag == "slice" and t[2] == T.NONE and t[3] == T.NONE:
@@ -112,7 +116,26 @@ def run(ck):
     scanned = 0
     g1 = g2 = g3 = 0
     seen = set()
+    from ..norm import is_new_helper
+
+    def read_through_callers(f) -> bool:
+        """a helper introduced after the pinned tree whose every call is a statement-level call (the path explorer reads such a
+        call through the helper's body): it is judged in its callers' context - with their guards - and not on its own, where
+        its parameters would be unconstrained"""
+        if not is_new_helper(f) or any(isinstance(x, (ast.Yield, ast.YieldFrom)) for x in ast.walk(f.node)):
+            return False
+        sites = [(g, s) for g in fns for s in ctx.cg.sites.get(g.qualname, []) if any(getattr(c, "fn", None) is f for c in s.repo_callees())]
+        if not sites:
+            return False
+        for g, s in sites:
+            par = _parent_map(g.node)
+            up = par.get(id(s.node))
+            if not (isinstance(up, (ast.Assign, ast.Expr, ast.Return, ast.AnnAssign, ast.AugAssign)) and getattr(up, "value", None) is s.node):
+                return False
+        return True
     for fn in fns:
+        if read_through_callers(fn):
+            continue
         paths = explore(ck, fn, unroll=(0, 1), max_paths=4000)
         scanned += 1
         for pa in paths:
@@ -409,8 +432,14 @@ def _g4(ck):
     # locate the consumer of the map result: a comprehension / loop over the call
     parent = _parent_map(fn.node)
     consumer = parent.get(id(call))
-    while consumer is not None and not isinstance(consumer, (ast.comprehension, ast.For)):
+    while consumer is not None and not isinstance(consumer, (ast.comprehension, ast.For, ast.Assign)):
         consumer = parent.get(id(consumer))
+    if isinstance(consumer, ast.Assign) and len(consumer.targets) == 1 and isinstance(consumer.targets[0], ast.Name):
+        # the map result is bound to a local first: the consumer is the one comprehension / loop that iterates that local
+        held = consumer.targets[0].id
+        readers = [n for n in ast.walk(fn.node) if isinstance(n, (ast.comprehension, ast.For)) and isinstance(n.iter, ast.Name)
+                   and n.iter.id == held]
+        consumer = readers[0] if len(readers) == 1 else None
     if consumer is None:
         raise AnalysisError(f"{where(fn, call)}: cannot find the loop/comprehension consuming the parallel map")
     if isinstance(consumer, ast.comprehension):
@@ -434,11 +463,25 @@ def _g4(ck):
         def is_truthy_test(n):
             return isinstance(n, ast.Name) and n.id == var
 
+        def is_none_eq(n):
+            return isinstance(n, ast.Compare) and isinstance(n.left, ast.Name) and n.left.id == var and \
+                len(n.ops) == 1 and isinstance(n.ops[0], ast.Is) and isinstance(n.comparators[0], ast.Constant) \
+                and n.comparators[0].value is None
+
+        def is_falsy_test(n):
+            return isinstance(n, ast.UnaryOp) and isinstance(n.op, ast.Not) and is_truthy_test(n.operand)
+
         bad = None
         for c in conds:
-            operands = c.values if isinstance(c, ast.BoolOp) and isinstance(c.op, ast.And) else [c]
-            for o in operands:
-                if is_none_test(o) or is_truthy_test(o):
+            if isinstance(c, ast.BoolOp) and isinstance(c.op, ast.And):
+                operands = [(o, False) for o in c.values]
+            elif isinstance(c, ast.UnaryOp) and isinstance(c.op, ast.Not) and isinstance(c.operand, ast.BoolOp) \
+                    and isinstance(c.operand.op, ast.Or):
+                operands = [(o, True) for o in c.operand.values]        # not (a or b)  ==  not a and not b, left to right
+            else:
+                operands = [(c, False)]
+            for o, negated in operands:
+                if (not negated and (is_none_test(o) or is_truthy_test(o))) or (negated and (is_none_eq(o) or is_falsy_test(o))):
                     state["guarded"] = True
                 elif uses_attr(o) and not state["guarded"]:
                     bad = o
